@@ -171,6 +171,8 @@ class Verifier(Interp):
             lab, text = split_label(cl, f"post{j}")
             if isinstance(text, str) and ("ncalls(" in text or "callarg(" in text):
                 continue  # effect clause about the callee's own execution: not usable at a call site
+            if lab.startswith("step/"):
+                continue  # C03's step-contract clauses are proved on the owner's own body (they read its call log); callers do not use them
             v = eval_clause(self, text, vars, func.globs, old_vars=old, extra=self.spec_extra)
             self.assume(v)
         return res
